@@ -23,6 +23,11 @@ class Gen:
     def note(self, k):
         self.hist[k] = self.hist.get(k, 0) + 1
 
+    def fresh_declared(self, ty):
+        n = self.fresh()
+        self.declare(n, ty)
+        return n
+
     def fresh(self):
         n = "x%d" % self.next_var
         self.next_var += 1
@@ -124,6 +129,15 @@ class Gen:
             return self.hint_scenario()
         if k == 0 or (k < 3 and not ints):
             n = self.fresh()
+            if r.chance(1, 5):
+                # declared first, given its value by a later `=` (Equation's first-assignment path: the right-hand side is cloned, a
+                # temporary is adopted), then used like any other variable
+                self.note("late-init")
+                first = self.int_expr() if r.chance(1, 2) else "(bin + %s %s)" % (self.int_expr(1), self.int_expr(1))
+                self.declare(n, "int")
+                more = r.choice(["(eq = (id %s) %s)" % (n, self.int_expr(1)), "(eq += (id %s) (int 1))" % n, "(pre inc (id %s))" % n,
+                                 "(print (id %s))" % n, "(decl %s (id %s))" % (self.fresh_declared("int"), n)])
+                return "(var %s) (eq = (id %s) %s) %s (print (id %s))" % (n, n, first, more, n)
             if r.chance(1, 4):
                 e = self.bool_expr()
                 self.declare(n, "bool")
